@@ -3,6 +3,8 @@ import PwVerif.Model.Registry
 import PwVerif.Model.Frames
 import PwVerif.Model.Mro
 import PwVerif.Model.Pool
+import PwVerif.Model.Lifecycle
+import PwVerif.Gen.RunLoops
 /-!
 Line-protocol driver: `lake env lean --run PwVerif/Driver.lean < cases.txt`.
 One case per input line, one canonical observation per output line. Used by the
@@ -243,6 +245,51 @@ def run (args : List String) : String :=
   | _ => "bad-op"
 end PoolIO
 
+/-! ## run: `run <prog> <target r|u|b> <targetNone 0|1> <inputs e.g. iir|-> <k|-> <async w|c|k>`
+   (w = WTE raised by the hook, c = WTE via the control thread after a real terminate(), k = kill)
+output: `out=<..> obs=<has_error>/<error> trace=<ln,ln,...> comms=<..> results=<..>` -/
+namespace RunIO
+open PwVerif.Py PwVerif.Lifecycle
+
+def prog (n : String) : Option (List Stmt × Kind) :=
+  match n with
+  | "threadRun" => some (PwVerif.Gen.threadRun, .thread)
+  | "processRun" => some (PwVerif.Gen.processRun, .process)
+  | "remoteRun" => some (PwVerif.Gen.remoteRun, .remote)
+  | "pthreadRun" => some (PwVerif.Gen.pthreadRun, .thread)
+  | "pprocessRun" => some (PwVerif.Gen.pprocessRun, .process)
+  | "premoteRun" => some (PwVerif.Gen.premoteRun, .remote)
+  | _ => none
+
+def showExc : Exc → String
+  | .wte => "wte" | .user => "user" | .base => "base" | .closed => "closed" | .empty => "empty" | .nothing => "nothing"
+
+def showMsg : Msg → String
+  | .info => "info" | .final none => "ok" | .final (some e) => "err:" ++ showExc e
+  | .noneResult => "none" | .userState => "ustate" | .item c => "item" ++ toString c | .endMarker c => "end" ++ toString c
+
+def showOut : Out → String
+  | .normal => "normal" | .raised e => "raised:" ++ showExc e | .returned => "returned" | .broke => "broke"
+  | .killed => "killed" | .stuck => "stuck" | .fuel => "fuel"
+
+def run (args : List String) : String :=
+  match args with
+  | [p, t, tn, inp, k, a] =>
+    match prog p with
+    | none => "bad-op"
+    | some (pr, kind) =>
+      let target := if t == "u" then Target.raisesUser else if t == "b" then Target.raisesBase else Target.returns
+      let inputs := if inp == "-" then [] else inp.toList.map fun c => if c == 'i' then Input.item else if c == 'r' then Input.release else Input.eof
+      let async := if a == "k" then Async.kill else Async.raiseWte (a == "c")
+      let (st, out) := PwVerif.Py.run pr { target := target, targetNone := tn == "1" } inputs k.toNat? async
+      let o := observe kind st
+      let he := match o.hasError with | none => "None" | some true => "True" | some false => "False"
+      let er := match o.error with | none => "None" | some e => showExc e
+      "out=" ++ showOut out ++ " obs=" ++ he ++ "/" ++ er ++ " trace=" ++ ",".intercalate (st.trace.map toString)
+        ++ " comms=" ++ ",".intercalate (st.comms.map showMsg) ++ " results=" ++ ",".intercalate (st.results.map showMsg)
+  | _ => "bad-op"
+end RunIO
+
 def step (line : String) : String :=
   match (line.trimAscii.toString.splitOn " ").filter (· ≠ "") with
   | "c10" :: args => c10 args
@@ -250,6 +297,7 @@ def step (line : String) : String :=
   | "frames" :: args => FramesIO.run args
   | "c13mro" :: args => c13mro args
   | "pool" :: args => PoolIO.run args
+  | "run" :: args => RunIO.run args
   | "c13choice" :: args => c13choice args
   | _ => "bad-op"
 
